@@ -26,10 +26,10 @@ import (
 
 // PullOp is one client call as data.
 type PullOp struct {
-	Kind      string        `json:"kind"` // dequeue ack nack extend list
-	Route     int           `json:"route"`        // index of the pull route addressed; -1: unknown endpoint
-	Token     string        `json:"token"`        // ok_route ok_global other_route none basic empty prefix suffix case lower_scheme two_values admin
-	Transport string        `json:"transport"`    // http | worker | admin
+	Kind      string        `json:"kind"`      // dequeue ack nack extend list
+	Route     int           `json:"route"`     // index of the pull route addressed; -1: unknown endpoint
+	Token     string        `json:"token"`     // ok_route ok_global other_route none basic empty prefix suffix case lower_scheme two_values admin
+	Transport string        `json:"transport"` // http | worker | admin
 	Batch     int           `json:"batch,omitempty"`
 	TTL       time.Duration `json:"ttl,omitempty"`
 	LeaseRefs []int         `json:"lease_refs,omitempty"` // most recent first; <0 literals
@@ -41,10 +41,10 @@ type PullOp struct {
 
 type PullWorld struct {
 	*SysWorld
-	Model   *Model
-	leases  []string
-	recent  map[string]time.Time // lease/opkind -> time of success (idempotency window)
-	tokSeq  int
+	Model    *Model
+	leases   []string
+	recent   map[string]time.Time // lease/opkind -> time of success (idempotency window)
+	tokSeq   int
 	payloads map[string][]byte
 }
 
